@@ -791,6 +791,7 @@ where
                     Symbol::Rule(s_ridx) => {
                         st.push((pidx, sidx + 1));
                         st.push((cheapest_prod(*s_ridx), 0));
+                        break;
                     }
                     Symbol::Token(s_tidx) => {
                         s.push(*s_tidx);
